@@ -89,6 +89,43 @@ def scenarios():
     return [{"nodes": [1], "ops": o} for o in out]
 
 
+def will_scenarios():
+    """sessions with a will that end in the middle of something (C13): the client hangs up (or pipelines a DISCONNECT) while its own
+    CONNECT, SUBSCRIBE or teardown is parked; two watchers are subscribed to the will topic throughout"""
+    out = []
+    sweeps = [{"op": "sweep", "n": 1, "ms": 4500}, {"op": "sweep", "n": 1, "ms": 9000}]
+    k = 0
+
+    def base():
+        return [{"op": "connect", "c": 9, "n": 1, "client": "watch1", "ka": 6000},
+                {"op": "sub", "c": 9, "id": 1, "fs": [{"f": ["w", "#"], "q": 1}]},
+                {"op": "connect", "c": 8, "n": 1, "client": "watch2", "ka": 6000},
+                {"op": "sub", "c": 8, "id": 1, "fs": [{"f": ["w", "+"], "q": 0}, {"f": ["other"], "q": 1}]}]
+
+    def mortal(k):
+        return {"op": "connect", "c": 1, "n": 1, "client": "mortal", "ka": 10,
+                "will": {"t": ["w", "m%d" % k], "p": "will-%d" % k, "q": k % 3, "r": k % 4 == 3}}
+    for hold in ("reg.create", "sess.create", "sess.byclientid"):
+        for how in ("close", "disconnect"):
+            for _ in range(2):
+                k += 1
+                bye = {"op": "send", "c": 1, "kind": "DISCONNECT"} if how == "disconnect" else {"op": "close", "c": 1}
+                out.append(base() + [{"op": "race", "hold": hold, "a": mortal(k), "b": [bye]}] + sweeps + [{"op": "quiesce"}])
+    for hold in ("subs.create", "topics.get"):
+        for how in ("close", "disconnect"):
+            k += 1
+            bye = {"op": "send", "c": 1, "kind": "DISCONNECT"} if how == "disconnect" else {"op": "close", "c": 1}
+            sub = {"op": "sub", "c": 1, "id": 5, "fs": [{"f": ["w", "#"], "q": 1}]}
+            out.append(base() + [mortal(k), {"op": "race", "hold": hold, "a": sub, "b": [bye]}] + sweeps + [{"op": "quiesce"}])
+    for how in ("close", "disconnect"):
+        k += 1
+        leave = {"op": "close", "c": 1} if how == "close" else {"op": "send", "c": 1, "kind": "DISCONNECT"}
+        sub = {"op": "sub", "c": 1, "id": 5, "fs": [{"f": ["a", "b"], "q": 1}]}
+        pub = {"op": "pub", "c": 9, "t": ["a", "b"], "p": "meanwhile%d" % k, "q": 1, "r": False, "id": 50}
+        out.append(base() + [mortal(k), sub, {"op": "race", "hold": "subs.delete", "a": leave, "b": [pub]}] + sweeps + [{"op": "quiesce"}])
+    return [{"nodes": [1], "ops": o} for o in out]
+
+
 def execute(run, scns, tag, shards=12, timeout=1800):
     spath = os.path.join(run.scratch, "race-%s.ndjson" % tag)
     with open(spath, "w") as f:
@@ -134,9 +171,9 @@ def classify(scn, line):
     return "race:%s-unexplained" % e["op"]
 
 
-def check_family(run, prop, verdict, keep=lambda s: True, tag="race"):
+def check_family(run, prop, verdict, keep=lambda s: True, tag="race", scns=None):
     """-> (scenarios, events, validated, rejected, states)"""
-    scns = [s for s in scenarios() if keep(s)]
+    scns = [s for s in (scenarios() if scns is None else scns) if keep(s)]
     tpath, crashes = execute(run, scns, tag)
     if crashes:
         raise vlib.Inconclusive("broker driver (gates) died: %s" % crashes[0][2][-2000:])
